@@ -29,8 +29,12 @@ def generate(prop_module, only=None):
             info['functions'] |= set(getattr(u.run, 'functions', []))
             continue
         if isinstance(u, Lemma):
+            from z3 import BoolVal as _BV
             for label, hyps, goal in u.items:
                 out.append((f"{u.name}/lemma/{label}", Obligation(label, list(hyps), goal, (), 'lemma'), u.axioms))
+            if u.items:     # vacuity canary: the hypotheses of the lemma (incl. axioms) must not be contradictory
+                label, hyps, goal = u.items[-1]
+                out.append((f"{u.name}/canary/hypotheses-consistent", Obligation('hypotheses-consistent', list(hyps), _BV(False), (), 'canary'), u.axioms))
             info['units'].append(dict(name=u.name, kind='lemma', obligations=len(u.items)))
             continue
         repo = Repo(REPO_SRC)
@@ -80,7 +84,7 @@ def main(argv):
     class O: pass
     jobs = []
     for name, ob, axioms in obls:
-        o = Obligation(ob.name, list(axioms) + list(ob.assumptions), ob.goal, ob.prefix, ob.kind)
+        o = Obligation(ob.name, list(axioms) + list(ob.assumptions), ob.goal, ob.prefix, ob.kind, None, ob.axgroups)
         jobs.append(o)
     res = solve.discharge(jobs, timeout=a.timeout)
     bad = 0
